@@ -255,6 +255,7 @@ class ScalarNames:
     def __init__(self, tr, module, func, scalar_params, outer):
         self.tr, self.module, self.outer = tr, module, outer
         self.sites = {}           # name -> list of ('expr', node) | ('elem', node) | ('no',)
+        self.store_sites = {}     # name -> what is stored *into* it (x[i] = v, x.append(v)); only counts for locals
         self.funcnames = set()
         for a in func.args.args + func.args.kwonlyargs:
             self.sites.setdefault(a.arg, []).append(("yes",) if a.arg in scalar_params else ("no",))
@@ -264,6 +265,9 @@ class ScalarNames:
         body = func.body if isinstance(func, ast.FunctionDef) else [ast.Expr(func.body)]
         for st in body:
             self.collect(st)
+        for n, ss in self.store_sites.items():
+            if n in self.sites:          # a name captured from an enclosing scope is not made local by a store
+                self.sites[n].extend(ss)
         self.S = set(self.sites)
         changed = True
         while changed:
@@ -324,7 +328,7 @@ class ScalarNames:
                 while isinstance(b, (ast.Subscript, ast.Attribute)):
                     b = b.value
                 if b is not t and isinstance(b, ast.Name):
-                    self.sites.setdefault(b.id, []).append(("expr", st.value))
+                    self.store_sites.setdefault(b.id, []).append(("expr", st.value))
         if isinstance(st, ast.Call) and isinstance(st.func, ast.Attribute) \
                 and METHODS.get(st.func.attr) in ("wself_join",):
             b = st.func.value
@@ -332,7 +336,7 @@ class ScalarNames:
                 b = b.value
             if isinstance(b, ast.Name) and b.id not in self.module.aliases:
                 for a in list(st.args) + [k.value for k in st.keywords]:
-                    self.sites.setdefault(b.id, []).append(("expr", a))
+                    self.store_sites.setdefault(b.id, []).append(("expr", a))
         for n in ast.iter_child_nodes(st):
             if isinstance(n, (ast.ListComp, ast.SetComp, ast.GeneratorExp, ast.DictComp)):
                 for g in n.generators:
@@ -468,7 +472,8 @@ class Translator:
         self.oned = set()      # vars that certainly hold a 1-D array (ravel / flatten): x[i] is a scalar
         self.elems = {}        # container var -> var standing for what its elements may refer to
         self.fields = {}       # (elements var, constant key) -> var: entries stored under a literal key.
-        #                        Assumption (documented): a computed key never equals a literal key of the same dict.
+        #                        Assumption (documented): a load with a *computed* key never hits an entry that was
+        #                        stored under a *literal string* key of the same dict.
         self.sameobj = {}      # var -> index of the input object it *is* (plain name / parameter passing)
         self.blocks = [[]]
         self.stack = []        # FunctionDef nodes being inlined
@@ -631,10 +636,11 @@ class Translator:
         return v
 
     def const_key(self, scope, idx):
-        if isinstance(idx, ast.Constant) and isinstance(idx.value, (str, int)):
+        if isinstance(idx, ast.Constant) and isinstance(idx.value, str):
             return repr(idx.value)
         if isinstance(idx, ast.Name) and idx.id not in getattr(scope.scalars, "sites", {}) \
-                and idx.id in scope.module.consts and isinstance(scope.module.consts[idx.id], ast.Constant):
+                and idx.id in scope.module.consts and isinstance(scope.module.consts[idx.id], ast.Constant) \
+                and isinstance(scope.module.consts[idx.id].value, str):
             return repr(scope.module.consts[idx.id].value)
         return None
 
@@ -889,7 +895,16 @@ class Eval(Translator):
             if b in self.cont:
                 ck = self.const_key(scope, idx)
                 if ck is not None:
-                    return ("var", self.field_of(b, ck))
+                    # an entry stored under this literal key, or under a computed key that happens to equal it
+                    t = self.new(self.names[b] + f"[{ck}]?")
+                    self.join_into(t, [("var", self.field_of(b, ck)), ("var", self.elems_of(b))])
+                    if self.field_of(b, ck) in self.cont or self.elems_of(b) in self.cont:
+                        self.cont.add(t)
+                        self.elems[t] = self.elems.get(self.field_of(b, ck), self.elems.get(self.elems_of(b)))
+                        if self.elems[t] is None:
+                            del self.elems[t]
+                            self.cont.discard(t)
+                    return ("var", t)
                 return ("var", self.elems_of(b))
             if b in self.oned and len(parts) == 1 and not isinstance(idx, ast.Slice) and scope.scalars.scalar(idx):
                 return SC            # one scalar index into a 1-D array: an element, not a view
@@ -1198,6 +1213,20 @@ class Eval(Translator):
             self.blocks[-1].extend(ops)
         return v
 
+    def freeze(self, v):
+        """a tuple value refers to DSL variables that may be re-bound later: give it its own copies"""
+        if v[0] != "tup":
+            return v
+        out = []
+        for x in v[1]:
+            if x[0] == "var":
+                t = self.new(self.names[x[1]] + "'")
+                self.alias(t, x[1], plain=True)
+                out.append(("var", t))
+            else:
+                out.append(self.freeze(x))
+        return ("tup", out)
+
     def assign(self, scope, target, v, valnode, elementwise=False):
         if isinstance(target, ast.Name):
             n = target.id
@@ -1211,7 +1240,7 @@ class Eval(Translator):
                 scope.special[n] = v
                 return
             if v[0] == "tup":
-                scope.special[n] = v
+                scope.special[n] = self.freeze(v)
                 return
             scope.special.pop(n, None)
             d = self.var_of(scope, n)
@@ -1230,7 +1259,8 @@ class Eval(Translator):
             return
         if isinstance(target, (ast.Tuple, ast.List)):
             if v[0] == "tup" and len(v[1]) == len(target.elts) and not any(isinstance(t, ast.Starred) for t in target.elts):
-                for t, x in zip(target.elts, v[1]):
+                # the right-hand side is evaluated completely before any target is bound (a, b = b, a)
+                for t, x in zip(target.elts, self.freeze(v)[1]):
                     self.assign(scope, t, x, None)
             else:
                 part = self.load_elem(v) if v != SC else SC
@@ -1498,7 +1528,10 @@ class Eval(Translator):
             if isinstance(st, ast.Assert):
                 self.eval(scope, st.test)
         elif isinstance(st, ast.Delete):
-            pass
+            for t in st.targets:
+                if isinstance(t, (ast.Subscript, ast.Attribute)):      # del x[k] / del x.a mutates x
+                    for b in self.vars_of(self.eval(scope, t.value)):
+                        self.emit("write", b)
         else:
             raise Unsupported(f"statement {type(st).__name__}")
 
@@ -2006,6 +2039,388 @@ def lean_fact(f):
     return f".other {lean_str(f.get('text', '?')[:60])}"
 
 
+# ---------------------------------------------------------------------------------------------------
+# translator self-test: aliasing patterns with a known verdict (`_ok_` in the name = must be accepted, every
+# other function must be rejected).  They are compiled like the library and checked in Props/C10.lean
+# (`translator_selftest`), so a regression of the translator itself breaks a proof obligation.
+SELFTEST_SOURCE = r'''
+import numpy as np
+import xarray as xr
+import copy
+from functools import partial
+import dask.array as da
+from xrspatial.utils import ArrayTypeFunctionMapping
+
+def _k(a):
+    a[0, 0] = 1
+
+def t01_sort_ravel(agg):
+    out = agg.data.ravel()
+    out.sort()
+    return xr.DataArray(np.zeros(3))
+
+def t02_kernel_writes_param(agg):
+    _k(agg.data)
+    return xr.DataArray(np.zeros(3))
+
+def t03_dict_element(agg):
+    d = {}
+    d['k'] = agg.data
+    d['k'][:] = 0
+    return xr.DataArray(np.zeros(3))
+
+def t04_loop_carried(agg):
+    a = np.zeros(3)
+    b = np.zeros(3)
+    for i in range(3):
+        a[0] = 1
+        a = b
+        b = agg.data
+    return xr.DataArray(np.zeros(3))
+
+def t05_return_slice(agg):
+    return xr.DataArray(agg.data[1:])
+
+def t06_out_kw(agg):
+    np.add(agg.data, 1, out=agg.data)
+    return xr.DataArray(np.zeros(3))
+
+def t07_attr_augassign(agg):
+    agg.data += 1
+    return xr.DataArray(np.zeros(3))
+
+def t08_early_return(agg, flag=None):
+    if flag:
+        return xr.DataArray(agg.data.copy())
+    return xr.DataArray(agg.data)
+
+def t09_ok_copy(agg):
+    x = agg.data.copy()
+    x[:] = 0
+    return xr.DataArray(x)
+
+def t10_iter_rows(agg):
+    for row in agg.data:
+        row[:] = 0
+    return xr.DataArray(np.zeros(3))
+
+def t11_lambda(agg):
+    f = lambda a: a.fill(0)
+    f(agg.data)
+    return xr.DataArray(np.zeros(3))
+
+def t12_break(agg, c=None):
+    x = np.zeros(3)
+    while True:
+        if c:
+            x = agg.data
+            break
+        x = np.zeros(3)
+    x[:] = 0
+    return xr.DataArray(np.zeros(3))
+
+def t13_list_of_inputs(agg):
+    layers = [agg.data, np.zeros(3)]
+    for l in layers:
+        l[0] = 1
+    return xr.DataArray(np.zeros(3))
+
+def t14_ok_list_fresh(agg):
+    layers = [agg.data.copy(), np.zeros(3)]
+    for l in layers:
+        l[0] = 1
+    names = list(agg.coords)
+    names.remove('x')
+    return xr.DataArray(layers[0])
+
+def t15_asarray_same_dtype(agg):
+    data = np.asarray(agg.data, dtype=np.float32)
+    data[data < 0] = 0
+    return xr.DataArray(data)
+
+def t16_ok_where(agg):
+    data = np.where(agg.data < 0, 0, agg.data)
+    data[0] = 1
+    return xr.DataArray(data)
+
+def t17_setattr_coords(agg):
+    agg.attrs = {}
+    return xr.DataArray(np.zeros(3))
+
+def t18_tuple_unpack(agg):
+    a, b = agg.data, np.zeros(3)
+    a, b = b, a
+    b[0] = 1
+    return xr.DataArray(a)
+
+def t19_nested_closure(agg):
+    data = agg.data
+    def inner():
+        data[0] = 1
+    inner()
+    return xr.DataArray(np.zeros(3))
+
+def t20_masked(agg):
+    m = np.ma.masked_array(agg.data, mask=agg.data > 1)
+    m.data[0] = 5
+    return xr.DataArray(np.zeros(3))
+
+def t21_ok_mask_index_then_sort(agg):
+    s = agg.data.ravel()
+    s = s[np.isfinite(s)]
+    s.sort()
+    return xr.DataArray(s)
+
+def t22_int_index_of_index_array(agg):
+    idx = np.argsort(agg.data.ravel())
+    row = agg.data[idx[0]]
+    row[:] = 0
+    return xr.DataArray(np.zeros(3))
+
+def t23_copy_false(agg):
+    d = agg.data.astype(np.float64, copy=False)
+    d *= 2
+    return xr.DataArray(d)
+
+def t24_ok_deepcopy(agg):
+    a = copy.deepcopy(agg.attrs)
+    a['k'] = 1
+    return xr.DataArray(np.zeros(3), attrs=a)
+
+def t25_global_unsupported(agg):
+    global Z
+    Z = agg.data
+    return xr.DataArray(np.zeros(3))
+
+def t26_try_except(agg):
+    try:
+        x = agg.data
+    except Exception:
+        x = np.zeros(3)
+    x[0] = 1
+    return xr.DataArray(np.zeros(3))
+
+def t27_comprehension_elems(agg):
+    rows = [r for r in agg.data]
+    rows[0][0] = 1
+    return xr.DataArray(np.zeros(3))
+
+def t28_star_args(agg):
+    f = lambda *args: _k(*args)
+    f(agg.data)
+    return xr.DataArray(np.zeros(3))
+
+def t29_ok_scalar_reads(agg):
+    out = np.zeros(agg.shape)
+    rows, cols = agg.data.shape
+    for y in range(rows):
+        for x in range(cols):
+            v = agg.data[y, x]
+            out[y, x] = v * 2
+    return xr.DataArray(out)
+
+def t30_reshape_write(agg):
+    flat = agg.data.reshape(-1)
+    flat[0] = 1
+    return xr.DataArray(np.zeros(3))
+
+
+def _pick(a, b, c):
+    if c:
+        return a
+    return b
+
+def _pair(a):
+    return np.zeros(3), a
+
+def _rec(a, n):
+    if n == 0:
+        a[0] = 1
+        return a
+    return _rec(a, n - 1)
+
+def t31_multi_return(agg, c=None):
+    x = _pick(agg.data, np.zeros(3), c)
+    x[0] = 1
+    return xr.DataArray(np.zeros(3))
+
+def t32_tuple_return(agg):
+    z, a = _pair(agg.data)
+    a[0] = 1
+    return xr.DataArray(z)
+
+def t33_ok_da_copy(agg):
+    c = agg.copy()
+    c.data[:] = 0
+    return c
+
+def t34_copyto(agg):
+    np.copyto(agg.data, 0)
+    return xr.DataArray(np.zeros(3))
+
+def t35_ctor_alias(agg):
+    return xr.DataArray(agg.data, dims=agg.dims)
+
+def t36_transpose_store(agg):
+    agg.data.T[0] = 1
+    return xr.DataArray(np.zeros(3))
+
+def t37_flat(agg):
+    v = agg.values
+    v.flat[0] = 1
+    return xr.DataArray(np.zeros(3))
+
+def t38_aug_subscript(agg):
+    agg.data[0] += 1
+    return xr.DataArray(np.zeros(3))
+
+def t39_enumerate(agg):
+    for i, row in enumerate(agg.data):
+        row[0] = i
+    return xr.DataArray(np.zeros(3))
+
+def t40_zip(agg, other):
+    for a, b in zip(agg.data, other):
+        a[0] = 1
+    return xr.DataArray(np.zeros(3))
+
+def t41_dictcomp(agg, names):
+    d = {k: agg[k].data for k in names}
+    d['a'][0] = 1
+    return xr.DataArray(np.zeros(3))
+
+def t43_three_pass(agg):
+    a = np.zeros(3)
+    b = np.zeros(3)
+    c = np.zeros(3)
+    i = 0
+    while i < 5:
+        a[0] = 1
+        a = b
+        b = c
+        c = agg.data
+        i += 1
+    return xr.DataArray(np.zeros(3))
+
+def t45_ok_empty_like(agg):
+    out = np.empty_like(agg.data)
+    out[:] = agg.data
+    return xr.DataArray(out, coords=agg.coords, dims=agg.dims, attrs=agg.attrs)
+
+def t46_ifexp(agg, flag=None):
+    data = agg.data if flag else agg.data.copy()
+    data[0] = 1
+    return xr.DataArray(np.zeros(3))
+
+def t47_boolop(agg, flag=None):
+    data = flag and agg.data
+    data[0] = 1
+    return xr.DataArray(np.zeros(3))
+
+def t49_with(agg):
+    with np.errstate(all='ignore'):
+        agg.data[0] = 1
+    return xr.DataArray(np.zeros(3))
+
+def t50_partial(agg):
+    g = partial(_k)
+    g(agg.data)
+    return xr.DataArray(np.zeros(3))
+
+def t51_mapper(agg):
+    mapper = ArrayTypeFunctionMapping(numpy_func=_k, cupy_func=None, dask_func=None, dask_cupy_func=None)
+    mapper(agg)(agg.data)
+    return xr.DataArray(np.zeros(3))
+
+def t53_recursion(agg):
+    _rec(agg.data, 3)
+    return xr.DataArray(np.zeros(3))
+
+def t54_ok_dask_branch(agg):
+    if isinstance(agg.data, da.Array):
+        agg.data[:] = 0
+    return xr.DataArray(np.zeros(3))
+
+def t55_ok_sort_copy(agg):
+    agg.data.astype(float).sort()
+    s = np.sort(agg.data)
+    s[0] = 1
+    return xr.DataArray(s)
+
+def t56_sort_inplace(agg):
+    agg.data.sort()
+    return xr.DataArray(np.zeros(3))
+
+def t58_closure_getter(agg):
+    def get():
+        return agg.data
+    x = get()
+    x[0] = 1
+    return xr.DataArray(np.zeros(3))
+
+def t59_lambda_default(agg):
+    f = lambda a=agg.data: a.fill(0)
+    f()
+    return xr.DataArray(np.zeros(3))
+
+def t60_append_then_index(agg):
+    l = []
+    l.append(agg.data)
+    l[0][0] = 1
+    return xr.DataArray(np.zeros(3))
+
+def t61_ok_append_copy(agg):
+    l = []
+    l.append(agg.data.copy())
+    l[0][0] = 1
+    return xr.DataArray(l[0])
+
+def t62_setitem_da(agg):
+    agg[0, 0] = 1
+    return xr.DataArray(np.zeros(3))
+
+def t63_loc(agg):
+    agg.loc[dict(x=0)] = 1
+    return xr.DataArray(np.zeros(3))
+
+def t64_values_slice_assign(agg):
+    agg.values[:] = agg.values * 2
+    return xr.DataArray(np.zeros(3))
+
+def t65_coord_write(agg):
+    agg.coords['x'].values[0] = 5
+    return xr.DataArray(np.zeros(3))
+
+def t66_del_attr(agg):
+    del agg.attrs['res']
+    return xr.DataArray(np.zeros(3))
+
+def t67_attrs_update(agg):
+    agg.attrs.update(done=True)
+    return xr.DataArray(np.zeros(3))
+
+def t68_ok_attrs_dict_copy(agg):
+    a = dict(agg.attrs)
+    a['k'] = 1
+    return xr.DataArray(np.zeros(3), attrs=a)
+'''
+
+
+def selftest_entries(mods):
+    m = Module("selftest", ast.parse(SELFTEST_SOURCE))
+    mods2 = dict(mods)
+    mods2["selftest"] = m
+    out = []
+    for fn, node in m.funcs.items():
+        if fn.startswith("_"):
+            continue
+        e = translate_entry(mods2, "selftest", fn, node)
+        e["items"] = slice_items(e["items"], e["ret"])
+        e["expect_safe"] = "_ok_" in fn
+        out.append(e)
+    return out
+
+
 def generate(repo):
     mods = load_modules(repo)
     mx = MetaExtractor(mods)
@@ -2040,6 +2455,17 @@ def generate(repo):
             status=e["status"], k=e["k"], params=e["params"], ret=e["ret"], ops=count_ops(e["items"]), raw_ops=raw_ops,
             vars=e["nvars"], used=e["used"], unclassified=e["unclassified"], unknowns=e["unknowns"], rebinds=e["rebinds"],
             inlined=e["inlined"], meta=facts)
+    st_names = []
+    for e in selftest_entries(mods):
+        lname = "selftest_" + e["func"]
+        em = LeanEmitter("prog_" + lname)
+        top = em.block(e["items"], 2, 0)
+        out.extend(d for d in reversed(em.defs))
+        out.append(f"def prog_{lname} : Prog := {top}\n")
+        st_names.append(f"({lean_str(e['func'])}, prog_{lname}, {e['k']}, {e['ret']}, {'true' if e['expect_safe'] else 'false'})")
+    out.append("/-- translator self-test: (pattern, program, inputs, result variable, must the checker accept it) -/")
+    out.append("def selftest : List (String × Prog × Nat × Nat × Bool) := [\n  " + ",\n  ".join(st_names) + "]\n")
+    rep["selftest_patterns"] = len(st_names)
     out.append("def allEntries : List Entry := [" + ", ".join("entry_" + n for n in names) + "]\n")
     out.append("def allMeta : List FuncMeta := [" + ", ".join("meta_" + n for n in names) + "]\n")
     out.append("end XrsVerif.Gen")
